@@ -51,7 +51,8 @@ PROPS['C17'] = {'run': merge(suites.run_property_types, suites.run_negative_c17,
 PROPS['C05'] = {'run': merge(suites.run_property_types, suites.run_property_hist)}
 for _p in ('C11', 'C12', 'C13'):
     PROPS[_p] = {'run': suites.run_property_hist}
-PROPS['C14'] = {'run': merge(suites.run_property_hist, suites.run_property_types)}
+PROPS['C14'] = {'run': merge(suites.run_property_hist, suites.run_property_types, suites.run_miri)}
+PROPS['C01'] = {'run': merge(suites.run_property_types, suites.run_miri)}
 for _p in ('C07', 'C08', 'C09', 'C10'):
     PROPS[_p] = {'run': suites.run_property_io}
 
